@@ -64,7 +64,9 @@ func (p *FrameParser) Parse(buffer []byte) error {
 		err = nil
 	}
 	if err != nil {
-		return fmt.Errorf("parse: %w", err)
+		// bytes gopacket cannot decode (truncated packet, corrupt header length or options, ...) are a malformed
+		// packet to skip, not a reason to abort the traceroute
+		return &common.BadPacketError{Err: fmt.Errorf("parse: %w", err)}
 	}
 	if err := p.checkLayers(); err != nil {
 		return &common.BadPacketError{Err: err}
